@@ -301,6 +301,13 @@ struct Stats {
     revalidate: Vec<(Vec<Ev>, Vec<ReadRec>)>,
     found: Option<(Violation, Vec<Ev>, Vec<ReadRec>)>,
     cap_hit: bool,
+    /// when set: every executed schedule projected on its atomic steps (cross-check)
+    step_orders: Option<HashSet<Vec<Ev>>>,
+}
+
+/// A schedule without its bookkeeping events: only the atomic steps of the real code.
+fn step_order(trace: &[Ev]) -> Vec<Ev> {
+    trace.iter().copied().filter(|e| !matches!(e.k, Kind::Start | Kind::Yield)).collect()
 }
 static STATS: Mutex<Option<Stats>> = Mutex::new(None);
 
@@ -377,6 +384,9 @@ fn loom_iteration(cfg: Cfg, t0: Instant, wall_cap_s: u64) {
             st.reads_of_non_latest += 1;
         }
     }
+    if let Some(so) = st.step_orders.as_mut() {
+        so.insert(step_order(&trace));
+    }
     let n = st.outcomes.entry(reads.clone()).or_default();
     *n += 1;
     if *n == 1 && st.samples.len() < 6 {
@@ -392,8 +402,8 @@ fn loom_iteration(cfg: Cfg, t0: Instant, wall_cap_s: u64) {
     }
 }
 
-fn run_loom(cfg: Cfg, preemption_bound: Option<usize>, wall_cap_s: u64) -> Result<Stats, String> {
-    *STATS.lock().unwrap() = Some(Stats::default());
+fn run_loom(cfg: Cfg, preemption_bound: Option<usize>, wall_cap_s: u64, collect_step_orders: bool) -> Result<Stats, String> {
+    *STATS.lock().unwrap() = Some(Stats { step_orders: if collect_step_orders { Some(HashSet::new()) } else { None }, ..Stats::default() });
     MODE.store(MODE_LOOM, Ordering::SeqCst);
     let t0 = Instant::now();
     // loom runs on the calling (main) thread: while it runs the process is single
@@ -571,10 +581,11 @@ fn run_replay(cfg: Cfg, trace: &[Ev]) -> ReplayOutcome {
 
 /// Brute-force enumeration (no loom) of EVERY schedule of the configuration, with every
 /// step - including thread starts - as a decision point. Returns (schedules, outcome set).
-fn brute_force(cfg: Cfg, t0: Instant, wall_cap_s: u64) -> Result<(u64, BTreeSet<Vec<ReadRec>>), String> {
+fn brute_force(cfg: Cfg, t0: Instant, wall_cap_s: u64) -> Result<(u64, BTreeSet<Vec<ReadRec>>, HashSet<Vec<Ev>>), String> {
     let mut choices: Vec<usize> = vec![];
     let mut n = 0u64;
     let mut outcomes = BTreeSet::new();
+    let mut orders = HashSet::new();
     loop {
         if t0.elapsed().as_secs() > wall_cap_s {
             return Err(format!("wall cap hit after {n} schedules"));
@@ -583,11 +594,12 @@ fn brute_force(cfg: Cfg, t0: Instant, wall_cap_s: u64) -> Result<(u64, BTreeSet<
         n += 1;
         oracle(&cfg, &out.reads).map_err(|v| format!("brute force found a violation loom did not: {} / {}", v.sig, v.msg))?;
         outcomes.insert(out.reads);
+        orders.insert(step_order(&out.executed));
         // next path in depth-first order
         choices.resize(out.branching.len(), 0);
         loop {
             match choices.pop() {
-                None => return Ok((n, outcomes)),
+                None => return Ok((n, outcomes, orders)),
                 Some(c) => {
                     if c + 1 < out.branching[choices.len()] {
                         choices.push(c + 1);
@@ -675,8 +687,12 @@ pub fn main(cli: &Cli) {
     let thorough = cli.tier == Tier::Thorough;
     // (config, preemption bound)
     let mut plans: Vec<(Cfg, Option<usize>)> = vec![(Cfg { writes: 2, readers: 2, reads: 1 }, Some(2))];
+    // the configuration small enough to be enumerated a second time without loom
+    let cross_checked = Cfg { writes: 1, readers: 1, reads: 1 };
+    plans.push((cross_checked, None));
     if thorough {
-        plans.push((Cfg { writes: 2, readers: 2, reads: 1 }, Some(3)));
+        plans.push((Cfg { writes: 2, readers: 1, reads: 1 }, None));
+        plans.push((Cfg { writes: 2, readers: 2, reads: 1 }, Some(4)));
         plans.push((Cfg { writes: 3, readers: 2, reads: 2 }, Some(3)));
     }
     let wall_cap = cli.tier.pick(50u64, 1500);
@@ -691,7 +707,7 @@ pub fn main(cli: &Cli) {
             bound.map(|b| b.to_string()).unwrap_or_else(|| "none".into())
         );
         let t0 = Instant::now();
-        let st = run_loom(cfg, bound, wall_cap).unwrap_or_else(|e| machinery_failure(&format!("{name}: {e}")));
+        let st = run_loom(cfg, bound, wall_cap, bound.is_none() && cfg == cross_checked).unwrap_or_else(|e| machinery_failure(&format!("{name}: {e}")));
         let mut rep = Report {
             subject: name.clone(),
             states: st.prefixes.len() + 1,
@@ -758,6 +774,32 @@ pub fn main(cli: &Cli) {
                 machinery_failure(&format!("{name}: vacuous, readers returned only {:?} of the {} possible values", st.values, cfg.writes + 1));
             }
         }
+        // independent cross-check of the unbounded loom run: enumerate every schedule with
+        // the loom-free scheduler and compare the sets of read outcomes
+        let mut brute = json!(null);
+        if bound.is_none() && cfg == cross_checked && st.found.is_none() && !st.cap_hit {
+            let (n, outs, orders) = brute_force(cfg, t0, wall_cap).unwrap_or_else(|e| machinery_failure(&format!("{name}: brute-force cross-check: {e}")));
+            let loom_outs: BTreeSet<Vec<ReadRec>> = st.outcomes.keys().cloned().collect();
+            if outs != loom_outs {
+                machinery_failure(&format!(
+                    "{name}: loom (unbounded) and the brute-force enumeration disagree on the set of read outcomes: only loom {:?}; only brute force {:?}",
+                    loom_outs.difference(&outs).collect::<Vec<_>>(),
+                    outs.difference(&loom_outs).collect::<Vec<_>>()
+                ));
+            }
+            let loom_orders = st.step_orders.as_ref().expect("collected");
+            if &orders != loom_orders {
+                let only_brute = orders.difference(loom_orders).next().map(|t| t.iter().map(|e| format!("{}:{:?}", e.t, e.k)).collect::<Vec<_>>().join(" "));
+                let only_loom = loom_orders.difference(&orders).next().map(|t| t.iter().map(|e| format!("{}:{:?}", e.t, e.k)).collect::<Vec<_>>().join(" "));
+                machinery_failure(&format!(
+                    "{name}: loom (unbounded) executed {} distinct orders of atomic steps, the brute-force enumeration {}; e.g. only brute force: {only_brute:?}; only loom: {only_loom:?}",
+                    loom_orders.len(),
+                    orders.len()
+                ));
+            }
+            brute = json!({"schedules_enumerated_without_loom": n, "distinct_read_outcomes": outs.len(), "distinct_orders_of_atomic_steps": orders.len(), "agrees_with_loom": true});
+            run.extra_traces += n as usize;
+        }
         rep.wall_s = t0.elapsed().as_secs_f64();
         all_values.extend(st.values.iter().copied());
         loom_runs.push(json!({
@@ -767,6 +809,7 @@ pub fn main(cli: &Cli) {
             "distinct_returned_values": st.values, "iterations_with_reader_retry": st.iterations_with_retry,
             "reads_started_after_a_completed_write": st.reads_after_completed_write, "reads_returning_a_non_latest_value": st.reads_of_non_latest,
             "schedules_reexecuted_by_replayer_twice": revalidated, "completed": !st.cap_hit && st.found.is_none(),
+            "brute_force_cross_check": brute,
         }));
         run.extra_traces += st.iterations as usize;
         run.add(rep);
